@@ -15,7 +15,7 @@ import (
 type verifEv struct {
 	ts  time.Time
 	id  int
-	key string
+	Key string // exported: read through reflection by the session key extractor
 }
 
 func (e *verifEv) GetTimestamp() time.Time { return e.ts }
